@@ -229,6 +229,21 @@ func c10Positions() []c10Pos {
 		{"json-label-and-path", func(v string) string {
 			return `{a="b"} | json x="a.b[0]", y=` + jq(`["`+"k"+`"].`+"z") + ` | y=` + jq(v)
 		}, exJSON, "log"},
+		// the path parameter of `| json x="path"`: the three part syntaxes of shared/path_parser.go — identifier, [N],
+		// ["quoted name"] / [`ticked name`] — with the hostile text as a quoted field name in first, middle and last
+		// place (a name may begin with a digit, a quote, anything), inside a double-quoted and inside a ticked LogQL string
+		{"json-path-quoted-first", func(v string) string { return `{a="b"} | json x=` + jq(`[`+jq(v)+`]`) }, exJSON, ""},
+		{"json-path-quoted-last", func(v string) string { return `{a="b"} | json x=` + jq(`a.b[3][`+jq(v)+`]`) }, exJSON, "log"},
+		{"json-path-quoted-second-param", func(v string) string {
+			return `{a="b"} | json x="a[0]", y=` + jq(`["k"][`+jq(v)+`].z`)
+		}, exJSON, "log"},
+		{"json-path-outer-ticked", func(v string) string {
+			return "{a=\"b\"} | json x=`[" + strings.ReplaceAll(jq(v), "`", "\\`") + "]`"
+		}, exJSON, "log"},
+		{"json-path-ticked-field", func(v string) string {
+			return `{a="b"} | json x=` + jq("k[`"+strings.ReplaceAll(v, "`", "")+"`]")
+		}, func(v string) []string { return []string{c10JSONCoerce(strings.ReplaceAll(v, "`", ""))} }, "log"},
+		{"logfmt-param", func(v string) string { return `{a="b"} | logfmt x=` + jq(v) }, exJSON, "log"},
 		{"regexp-pattern", func(v string) string { return `{a="b"} | regexp ` + jq(`(?P<g>`+reLit(v)+`[a-z]+)`) }, func(v string) []string { return []string{c10JSONCoerce(reLit(v))} }, ""},
 		{"regexp-pattern-raw", func(v string) string { return `{a="b"} | regexp ` + jq(v) }, exJSON, "log"},
 		{"drop-value", func(v string) string { return `{a="b"} | drop lbl=` + jq(v) }, exJSON, ""},
@@ -254,7 +269,8 @@ func c10Positions() []c10Pos {
 					continue
 				}
 				reach := reachMay
-				if c.name == "log" && p.name != "line-format" && p.name != "regexp-pattern-raw" && p.name != "label-format-const" && p.name != "matcher-value-ticked" {
+				if c.name == "log" && p.name != "line-format" && p.name != "regexp-pattern-raw" && p.name != "label-format-const" && p.name != "matcher-value-ticked" &&
+					p.name != "logfmt-param" && p.name != "json-path-ticked-field" {
 					reach = reachMust
 				}
 				lv := full(p.ex)
@@ -263,6 +279,9 @@ func c10Positions() []c10Pos {
 				}
 				if p.name == "line-filter-nregex-literal" {
 					lv[0].Fold = true
+				}
+				if p.name == "json-path-ticked-field" {
+					lv = []c10Level{{Class: clText, Expect: p.ex}} // text/scanner reads the raw-string token: valid UTF-8, no NUL
 				}
 				if p.name == "regexp-pattern-raw" {
 					lv[0].Loose = true // the marker is the regular expression: its groups decide the label list
@@ -311,6 +330,26 @@ func c10Positions() []c10Pos {
 		add(e.ep, "logql/json-path-ident", e.inv, []c10Level{{Class: clFull, Loose: true}, {Class: clIdent}}, reachMust, func(v string) *c10Req { return e.mk(`{a="b"} | json x=` + jq("p."+v+"[0]")) })
 		// the whole query parameter as one hostile string
 		add(e.ep, "logql/whole-query", e.inv, loose, reachMay, func(v string) *c10Req { return e.mk(v) })
+		// grammar fields that capture NUMBER tokens (Integer "."? Integer*): text there is refused by the parser, or is a
+		// different query; whatever happens, the marker must not arrive in SQL
+		for _, nm := range []struct {
+			name string
+			tmpl func(v string) string
+		}{
+			{"num/label-filter", func(v string) string { return `{a="b"} | x >= ` + v }},
+			{"num/range-time", func(v string) string { return `rate({a="b"}[` + v + `m])` }},
+			{"num/comparison", func(v string) string { return `rate({a="b"}[1m]) > ` + v }},
+			{"num/topk-param", func(v string) string { return `topk(` + v + `, rate({a="b"}[1m]))` }},
+			{"num/quantile-param", func(v string) string { return `quantile_over_time(` + v + `, {a="b"} | unwrap x [1m])` }},
+			{"num/quantile-time", func(v string) string { return `quantile_over_time(0.5, {a="b"} | unwrap x [` + v + `m])` }},
+			{"num/json-path-index", func(v string) string { return `{a="b"} | json x=` + jq("a["+v+"]") }},
+			// macros are refused by the planner ("not implemented"): neither the name nor a parameter reaches SQL
+			{"macro-param", func(v string) string { return `_test_macro(` + jq(v) + `)` }},
+			{"macro-name", func(v string) string { return `_` + v + `("x")` }},
+		} {
+			nm := nm
+			add(e.ep, "logql/"+nm.name, e.inv, full(nil), reachNever, func(v string) *c10Req { return e.mk(nm.tmpl(v)) })
+		}
 	}
 	// tail: a websocket; the plan is rendered on a ticker with the current time
 	ps = append(ps, c10Pos{Endpoint: "loki/tail", Pos: "logql/matcher-value+line-filter", Inv: inv(fQR, "QueryRangeController.Tail", "query", "query"),
@@ -618,6 +657,10 @@ func c10Positions() []c10Pos {
 		addL(e.ep, "traceql/attr-name-num", e.invk, trIdent, reachMust, tqLang[e.ep], func(v string) string { return `{.x="1" && resource.` + v + `=-1.5}` }, e.mk)
 		addL(e.ep, "traceql/aggregator-attr", e.invk, trIdent, reachMay, tqLang[e.ep], func(v string) string { return `{.x="1"} | avg(` + v + `) > 1` }, e.mk)
 		add(e.ep, "traceql/whole-query", e.invk, loose, reachMay, func(v string) *c10Req { return e.mk(v) })
+		// number / duration tokens: text there is refused by the parser or is a different query; never in SQL
+		add(e.ep, "traceql/num/number", e.invk, full(nil), reachNever, func(v string) *c10Req { return e.mk(`{.a>` + v + `}`) })
+		add(e.ep, "traceql/num/duration", e.invk, full(nil), reachNever, func(v string) *c10Req { return e.mk(`{duration>` + v + `ms}`) })
+		add(e.ep, "traceql/num/aggregator", e.invk, full(nil), reachNever, func(v string) *c10Req { return e.mk(`{.a="b"} | count() > ` + v) })
 	}
 	add("tempo/tag-values-v2", "path-tag", inv(fTe, "TempoController.ValuesV2", "path", "tag"), noSlash, reachMust, func(v string) *c10Req { return tempoValuesV2(v, `{.a="b"}`) })
 	add("tempo/tag-values-v2", "path-tag-no-q", inv(fTe, "TempoController.ValuesV2", "path", "tag"), noSlash, reachMay, func(v string) *c10Req { return tempoValuesV2(v, "") })
